@@ -3,7 +3,7 @@ def _sig(case, impl, pred):
     return p.split(":")[0]
 
 CONFIG = {
-    "modules": ["GoPlugin.Props.C09", "GoPlugin.Instance.C09", "GoPlugin.Props.C07", "GoPlugin.Instance.C07"],
+    "modules": ["GoPlugin.Props.C09", "GoPlugin.Props.Hygiene", "GoPlugin.Instance.C09", "GoPlugin.Props.C07", "GoPlugin.Instance.C07"],
     "scenario": "C09",
     "signature": _sig,
     "trivial": lambda impl: impl.startswith("res=") and set(impl[4:].split(",")) <= {"ok"},
